@@ -159,3 +159,17 @@ check(
     "Differences are asserted only where the generator changed an attribute a form compiler uses; representation-only differences (2 vs 2.0, list vs tuple, key order, renamed dummy indices) are never asserted. Counters stay in the 4-digit range and PYTHONHASHSEED is fixed (C12's subject).",
     "DESIGN.md 3 C11",
 )
+check(
+    "C19",
+    "exhaustive enumeration of all expression DAGs up to 4-7 nodes x all sharing patterns x handler families, and of all 167 classes x all handler tables; real traversal/mapping/dispatch vs recursive reference",
+    "For every expression DAG with <= 5 nodes over {3 coefficients, MultiIndex; Sin, Exp, Division, ListTensor(2,3), LT, Conditional, Indexed}, <= 6 over {f,g; Sin, Division}, <= 7 over {f; Sin, Division} (quick: 4/5/6), built as every share-or-rebuild object graph, all eight traversal functions (incl. all cutoff-type subsets, shared visited sets) and map_expr_dag(s)/map_integrand_dags/Transformer.visit/DAGTraverser (13 handler families + all cut-off subsets, exact call counts) agree with plain tree recursion; for all 167 registered classes x all handler tables (every subset of every class's ancestor chain, absent/post/cut, plus 2^13..2^16 cross-chain tables) MultiFunction, Transformer and DAGTraverser select the nearest defining ancestor in the MRO.",
+    "Nothing is claimed beyond the node bounds/alphabets (no free indices, variables or derivative operators in the DAGs). Handlers are pure apart from the call log. Cache staleness after late type registration is C20.",
+    "DESIGN.md 3 C19",
+)
+check(
+    "C27",
+    "exhaustive history exploration: every history of <= 2 (quick) / <= 3 (thorough) events over 38 inputs x 76 public algorithms/operators, re-executed from fresh inputs; deep pre/post-state comparison",
+    "Every history of <= 2 events (quick) or <= 3 events (thorough) over 38 inputs (forms on scalar/vector/mixed/Piola/DG/manifold/P2 meshes with nested mutable metadata and subdomain data, bare expressions, base forms) and 76 events (compute_form_data option sets, every public algorithm, form operators, Measure/Integral reconfiguration, ==/hash/sort/str/pickle, base-form algebra), each applied to the input or to any earlier result: after the last event the value state of the input, of every earlier result, of every caller-owned argument and of the global default measures (structure digest, metadata deep copy, subdomain data, repr/str/hash/signature/arguments/coefficients recomputed with cleared caches, cache consistency) equals the state before it.",
+    "Isolation by re-execution from fresh inputs with reset counters; every reported difference is confirmed inside one execution. Value-preserving identity changes (operand sharing by ==, cache fill/drop) are not violations. The deepest level uses the stated core alphabets.",
+    "DESIGN.md 3 C27",
+)
